@@ -13,6 +13,44 @@ from .. import reader_replay as rr
 def _focus(b):
     return b["kind"] != "print-path"      # the path of print events is C17's concern
 
+def repo_suite_reader_trace(ctx):
+    """The repository's own namespace tests, run with the hooks on, as a trace source for TraceReader.tla."""
+    import json, os, re, subprocess, sys, tempfile
+    from .. import core, tlc, tlaval, readertrace
+    fd, path = tempfile.mkstemp(prefix="verif-trace-", suffix=".ndjson")
+    os.close(fd)
+    try:
+        env = dict(os.environ, OPENCYPHAL_PYDSDL_VERIF="1", OPENCYPHAL_PYDSDL_VERIF_TRACE=path, PYTHONDONTWRITEBYTECODE="1",
+                   PYTHONPATH=str(core.REPO))
+        p = subprocess.run([sys.executable, "-m", "pytest", "-q", "-p", "no:cacheprovider", "pydsdl/_test.py", "pydsdl/_namespace.py",
+                            "pydsdl/_namespace_reader.py", "pydsdl/_dsdl_definition.py"], cwd=str(core.REPO), env=env,
+                           capture_output=True, text=True, timeout=1800)
+        if p.returncode != 0:
+            raise tlc.MachineryError("the repository's namespace tests failed under tracing: %s" % p.stdout[-500:])
+        evs = [json.loads(l) for l in open(path)]
+    finally:
+        os.unlink(path)
+    seq, files = readertrace.to_sequence(evs)
+    wd = tlc.workdir("c19rt")
+    rp = wd / "trace.ndjson"
+    rp.write_text("\n".join(json.dumps(x) for x in seq) + "\n")
+    res = tlc.run("TraceReader", "TraceReader.cfg", workers=1, env={"RECORDS": str(rp)}, tag="c19rt", timeout=1800)
+    ctx.add_tlc(res, "TraceReader")
+    m = re.search(r'<<\s*"VERDICT",\s*(\d+),\s*(\{[^}]*\})\s*>>', res.out)
+    if not m or int(m.group(1)) != len(seq):
+        raise tlc.MachineryError("no verdict from TraceReader: %s" % res.out[-800:])
+    for b in sorted(tlaval.parse(m.group(2)))[:30]:
+        what = files.get(b)
+        ctx.violation({"kind": "reader-trace", "case": "repository namespace tests",
+                       "diff": [("a definition was read inside another read without a reference having resolved to it", what)] if what
+                                else [("reader step out of order (nesting / text load / resolve outside its definition)", seq[b - 1])]})
+    tlc.cleanup(res)
+    import shutil
+    shutil.rmtree(wd, ignore_errors=True)
+    ctx.traces += 1
+    ctx.count(len(seq))
+    ctx.extra["repository_reader_trace_events"] = len(seq)
+
 def run(ctx):
     ctx.rule = ("TLC enumerates configurations (as C09/C10) for read_namespace and read_files with every target subset and "
                 "every distinguished body; every configuration is materialised and read; for each definition outside the "
@@ -31,6 +69,7 @@ def run(ctx):
         rr.run_cfg(ctx, "Reader_ns2_bodies.cfg", "namespace", paired=True, focus=_focus)
         rr.run_cfg(ctx, "Reader_files3_lean.cfg", "files", sample_mod=4, paired=True, focus=_focus)
         ctx.exhaustive = False
+    repo_suite_reader_trace(ctx)
     ctx.sample({"targets": ["d1/a/X.0.1"], "outside": "d1/a/Y.0.1 (same root, not a target, not referenced)",
                 "replacements": ["garbage", "assertfail", "nomode", "print", "service", "badref"]})
 
